@@ -195,3 +195,51 @@ def mesh_cases(seed, count, tag):
         n = len(g["pts"])
         yield dict(kind="grid", id="%s-%d-%d" % (tag, seed, i), grid=g, queries=_queries(rng, n, False, 2 * n),
                    iter=[-1, 1])
+
+
+def big_cases(seed, count, tag, queries=True, routes=True):
+    """Grids of 260 000 .. 400 000 nodes (kind "big"): accessor queries and routing observed at sampled
+    nodes only - pairs of nodes 2^16, 2^17, 2^18 apart (capacity / aliasing thresholds), row starts,
+    ends, random nodes.  The elevation is an integer formula of (row, column)."""
+    rng = random.Random(seed)
+    for i in range(count):
+        kind = ["queen", "rook", "queen", "profile"][i % 4]
+        if kind == "profile":
+            n = rng.randint(270000, 400000)
+            loop = rng.random() < 0.5
+            g = gen.profile(n, [LOOPED, LOOPED] if loop else [FV, rng.choice([CORE, FV])], dx=rng.choice([1, 2]))
+            nc = n
+        else:
+            nr, nc = rng.choice([(516, 512), (515, 512), (300, 900), (1030, 257), (523, 509)])
+            lr = [LOOPED, LOOPED] if rng.random() < 0.5 else [rng.choice([CORE, FV]), FV]
+            tb = [LOOPED, LOOPED] if (rng.random() < 0.3 and lr[0] != LOOPED) else [FV, rng.choice([CORE, FV, FG])]
+            g = gen.raster(nr, nc, kind, lr + tb, dy=rng.choice([1, 2]), dx=rng.choice([1, 3]))
+            n = nr * nc
+        nodes = set([0, 1, n - 1, n - 2])
+        for _ in range(6):
+            j = rng.randrange(n)
+            for off in (0, 1 << 16, 1 << 17, 1 << 18, (1 << 18) + 1, (1 << 18) - 1):
+                if j + off < n:
+                    nodes.add(j + off)
+        for k in (1 << 16, 1 << 17, 1 << 18):
+            for o in (-1, 0, 1):
+                if 0 <= k + o < n:
+                    nodes.add(k + o)
+        if kind != "profile":
+            for _ in range(4):
+                r = rng.randrange(1, n // nc)
+                nodes.update([r * nc - 1, r * nc, r * nc + 1])
+        nodes = sorted(x for x in nodes if 0 <= x < n)
+        c = dict(kind="big", id="%s-%d-%d" % (tag, seed, i), grid=g, timeout_ms=120000,
+                 f=dict(a=rng.randint(1, 40), b=rng.randint(1, 40), m1=rng.randint(50, 200), m2=rng.randint(3, 30)))
+        if queries:
+            qs = []
+            order = list(nodes)
+            for _ in range(2):            # ascending (warms the cache entry of j before j + 2^18), then shuffled
+                qs += [[0, x] for x in order]
+                rng.shuffle(order)
+            qs += [[1, x] for x in rng.sample(nodes, min(12, len(nodes)))]
+            c["queries"] = qs
+        if routes:
+            c["routes"] = [dict(thr=0, samples=nodes), dict(thr=rng.choice([2, 4, 7]), samples=nodes)]
+        yield c
